@@ -314,6 +314,13 @@ pub fn queries() -> Vec<Query> {
     push(Pat::Bgp(vec![TP(v("s"), i("p"), v("o")), TP(v("t"), i("p"), v("o"))]), Sel::Vars(vec!["s", "t", "o"]), "join-object-object");
     push(Pat::Bgp(vec![TP(v("s"), i("p"), v("o")), TP(v("t"), i("q"), v("n"))]), Sel::Vars(vec!["s", "t"]), "cross-product");
     push(Pat::Bgp(vec![TP(v("s"), v("p1"), v("o")), TP(v("o"), v("p2"), v("z"))]), Sel::Vars(vec!["s", "p1", "o", "p2", "z"]), "join-unbound-predicates");
+    // joins whose sides share two variables (a row pair must agree on every shared variable, not on one of them)
+    push(Pat::Bgp(vec![TP(v("x"), i("p"), v("y")), TP(v("y"), i("p"), v("x"))]), Sel::Vars(vec!["x", "y"]), "join-two-shared-mutual");
+    push(Pat::Bgp(vec![TP(v("s"), i("p"), v("o")), TP(v("s"), v("p2"), v("o"))]), Sel::Vars(vec!["s", "p2", "o"]), "join-two-shared-same-pair");
+    push(Pat::Bgp(vec![TP(v("a"), i("p"), v("b")), TP(v("b"), i("p"), v("c")), TP(v("c"), i("p"), v("a"))]), Sel::Vars(vec!["a", "b", "c"]), "join-triangle");
+    push(Pat::Bgp(vec![TP(v("a"), i("p"), v("b")), TP(v("b"), i("p"), v("c")), TP(v("a"), v("r"), v("c"))]), Sel::Vars(vec!["a", "b", "c", "r"]), "join-closing-edge");
+    push(Pat::Optional(Box::new(Pat::Bgp(vec![TP(v("s"), i("p"), v("o"))])), Box::new(Pat::Bgp(vec![TP(v("o"), v("r"), v("s"))]))), Sel::Vars(vec!["s", "o", "r"]), "optional-two-shared");
+    push(Pat::Minus(Box::new(Pat::Bgp(vec![TP(v("s"), i("p"), v("o"))])), Box::new(Pat::Bgp(vec![TP(v("o"), i("p"), v("s"))]))), Sel::Vars(vec!["s", "o"]), "minus-two-shared");
     // filters
     let base_q = || Pat::Bgp(vec![TP(v("s"), i("q"), v("n"))]);
     push(Pat::Filter(Box::new(base_q()), Cond::EqInt("n", 1)), Sel::Vars(vec!["s", "n"]), "filter-eq-typed-int");
